@@ -15,6 +15,10 @@ var rules = map[string]ruleFn{
 	"C01": ruleC01,
 	"C02": ruleC02,
 	"C03": ruleC03,
+	"C04": ruleC04,
+	"C05": ruleC05,
+	"C06": ruleC06,
+	"C19": ruleC19,
 	"C07": ruleC07,
 	"C08": ruleC08,
 	"C09": ruleC09,
